@@ -17,7 +17,8 @@ RULE = ("cases: PSD / PD operators of every class (nestings to depth 2, n 1..6, 
         "run once per unit vector of its flattened base noise (auxiliary draws - random Lanczos start vectors - are served from a fixed "
         "seeded stream), which yields the matrix M of the map noise -> samples. oracle: output shape (k, *batch, n); the map is linear "
         "(a random noise vector reproduces M z); M M^T = I_k (x) blockdiag_b(A_b) to the accuracy of the root used (Cholesky: direct; "
-        "Lanczos root identified through lanczos.* hook events: jitter tolerance, kappa <= 100; contour-integral variant: 1e-4). "
+        "Lanczos root identified through lanczos.* hook events: jitter tolerance, kappa <= 100; contour-integral variant: 1e-4; "
+        "contour-integral sampling through an active pivoted-Cholesky preconditioner (AddedDiag, thresholds lowered): R R^T = A with basis noise, 1e-3). "
         "distinct key = (root class, sampler path, k, settings key, dtype, batch rank)")
 ASSUMPTIONS = ["every base draw of a sampler goes through torch.randn (checked: a sampler whose recorded noise has zero elements is inconclusive)",
                "float64 dense covariance is the reference"]
